@@ -55,6 +55,13 @@ def variants(name, f):
             # smoothing kernels that treat undefined input values themselves (the raw %K is 0/0 on a flat window)
             for mt, nm in ((16, 'gauss'), (28, 'hwma'), (33, 'maaq')):
                 v['%s-matype' % nm] = {p: mt for p in mts}
+    if 'devtype' in sig.parameters:
+        # the other kinds of deviation (mean / median absolute), with a multiplier that does not cancel them
+        for dt in (1, 2):
+            kw = {'devtype': dt}
+            if 'mult' in sig.parameters:
+                kw['mult'] = 1.5
+            v['dev%d' % dt] = kw
     if name in SMALL_OVERRIDE:
         if SMALL_OVERRIDE[name]:
             v['small'] = dict(SMALL_OVERRIDE[name])
